@@ -33,6 +33,17 @@ def lib_collapse(t, named):
     return out
 
 
+def count_expansions(t, cap=10**7):
+    if t is None or t[0] != 'N': return 1
+    if t[1] == '_ambig':
+        return min(cap, sum(count_expansions(c, cap) for c in t[2]))
+    n = 1
+    for c in t[2]:
+        n *= count_expansions(c, cap)
+        if n > cap: return cap
+    return n
+
+
 def norm_any(t, named):
     # CollapseAmbiguities builds trees whose children are tuples: normalise structurally
     if t is None: return None
@@ -85,6 +96,10 @@ def check(case, ctx):
             except Exception as e:
                 raise Violation('parse raised %s' % type(e).__name__, grammar=gtext, text=w, lexer=lx, error=str(e)[:300])
             nt = gram.norm_tree(t, named)
+            if count_expansions(nt) > 4000:
+                # the result denotes thousands of trees (cyclic grammars): expanding it - here or in CollapseAmbiguities - is
+                # exponential work of the check, not a property matter
+                ctx.label('result denotes > 4000 trees (expansion skipped)'); continue
             try:
                 lst = gram.expand_ambig(nt) if expected is None else gram.expand_ambig(gram.strip_pos(nt))
             except MemoryError:
